@@ -25,8 +25,8 @@ CHECKS = {
         design="DESIGN.md §4 C02",
     ),
     "C03": dict(
-        rules="R03.1-R03.9 (+R20.1 bound via C20)",
-        what="order of the re-processing pipeline in reprocess_nodes and of the propagation loop; type snapshots read every __eq__ field; component-coverage matrix of the astmerge / deps / astdiff type visitors; the follow-imports walk queues every module found changed (never filtered by the set the finder marks); every daemon check response computes its status by main()'s predicate; list/set twin fields of a build State are written together",
+        rules="R03.1-R03.11 (+R20.1 bound via C20)",
+        what="order of the re-processing pipeline in reprocess_nodes and of the propagation loop; type snapshots read every __eq__ field; component-coverage matrix of the astmerge / deps / astdiff type visitors; the follow-imports walk queues every module found changed (never filtered by the set the finder marks); every daemon check response computes its status by main()'s predicate; list/set twin fields of a build State are written together; `not in` generates the __contains__ dependency; a partial re-check regenerates the ignore-comment diagnostics a whole-module update produces (two known findings)",
         quant="edit histories checked after every step",
         technique="CFG must-pass-through ordering, sibling cross-check (__eq__ fields vs snapshot reads), component-coverage matrix",
         note="Completeness of deps.py dependency generation per construct and of symbol snapshots is semantic and not decided. tables/R03.2.json and R03.3.json list the read deviants; entries marked (unproven) are informational.",
